@@ -117,3 +117,66 @@ Proof.
   - vm_compute. left. reflexivity.
   - reflexivity.
 Qed.
+
+(* ================================================================== *)
+(* The order inside a time point: the sort is stable, so a time point holds, in FILE order, what
+   the rows of that (shifted) time hold. *)
+
+Lemma split_rows_shifted h : split_rows h = (map kept_row h, flat_map delayed_rows h).
+Proof.
+  induction h as [|r rs IH]; [reflexivity|].
+  cbn [split_rows map flat_map]. rewrite IH. reflexivity.
+Qed.
+
+Lemma filter_insert_row t r : forall l,
+  filter (same_onset t) (insert_row r l) =
+  if same_onset t r then r :: filter (same_onset t) l else filter (same_onset t) l.
+Proof.
+  induction l as [|x xs IH].
+  - cbn [insert_row filter]. destruct (same_onset t r); reflexivity.
+  - cbn [insert_row]. destruct (r_onset r <=? r_onset x)%Z eqn:E.
+    + cbn [filter]. destruct (same_onset t r); reflexivity.
+    + cbn [filter]. rewrite IH. unfold same_onset in *.
+      destruct (r_onset r =? t)%Z eqn:Er; [|reflexivity].
+      destruct (r_onset x =? t)%Z eqn:Ex; [|reflexivity]. lia.
+Qed.
+
+Lemma filter_sort_rows t : forall l, filter (same_onset t) (sort_rows l) = filter (same_onset t) l.
+Proof.
+  induction l as [|x xs IH]; [reflexivity|].
+  cbn [sort_rows filter]. rewrite filter_insert_row, IH. reflexivity.
+Qed.
+
+Lemma merge_aux_first_row all : forall rows seen k r',
+  nth_error (merge_aux seen all rows) k = Some r' ->
+  ~ In (r_onset r') seen ->
+  (forall k' r'', k' < k -> nth_error rows k' = Some r'' -> r_onset r'' <> r_onset r') ->
+  r_items r' = concat (map r_items (filter (same_onset (r_onset r')) all)).
+Proof.
+  induction rows as [|r rs IH]; intros seen k r' Hn Hns Hfirst; [destruct k; discriminate|].
+  destruct k as [|k]; cbn [merge_aux nth_error] in Hn.
+  - inversion Hn; subst r'. clear Hn.
+    destruct (existsb (Z.eqb (r_onset r)) seen) eqn:Ex.
+    + exfalso. apply Hns. apply existsb_Zeqb in Ex. exact Ex.
+    + reflexivity.
+  - apply (IH _ _ _ Hn).
+    + intros [H|H]; [|contradiction]. apply (Hfirst 0 r ltac:(lia) eq_refl). exact H.
+    + intros k' r'' Hk Hn'. apply (Hfirst (S k') r'' ltac:(lia)). exact Hn'.
+Qed.
+
+Lemma time_point_items h o i r :
+  event_manager h = Ok o -> nth_error (o_rows o) i = Some r -> time_point (o_rows o) i ->
+  r_items r = concat (map r_items (filter (same_onset (r_onset r)) (shifted_rows h))).
+Proof.
+  intros Hrun Hn [Hi Hfirst]. rewrite (em_rows h o Hrun) in *.
+  unfold split_delay_tags in *. rewrite split_rows_shifted in *. fold (shifted_rows h) in *.
+  unfold merge_rows in *. set (s := sort_rows (shifted_rows h)) in *.
+  rewrite <- (filter_sort_rows (r_onset r) (shifted_rows h)). fold s.
+  apply (merge_aux_first_row s s [] i r Hn); [intros []|].
+  intros k' r'' Hk Hn'. specialize (Hfirst k' Hk).
+  rewrite merge_aux_onsets in Hfirst.
+  rewrite (nth_onset s k' r'' Hn') in Hfirst.
+  assert (Hri : nth i (map r_onset s) 0%Z = r_onset r).
+  { rewrite <- (merge_aux_onsets s s []). apply nth_onset. exact Hn. }
+  rewrite Hri in Hfirst. lia.
+Qed.
